@@ -105,3 +105,30 @@ Definition judge_ranges (c : bool * (N * N * N) * nat * option (list (N * N))) :
        | ROutOfFuel, _ => V_domain 0
        | _, _ => V_mismatch 0
        end.
+
+(** ** SyncCFTBlocks: one fetch request per range, in order; an honest peer answers a request (x,y) with the
+    blocks x..y; every block is pushed to the consumer in arrival order. *)
+Fixpoint nseq (x : N) (n : nat) : list N := match n with O => [] | S k => x :: nseq (x + 1) k end.
+Definition expand (r : N * N) : list N := nseq (fst r) (N.to_nat (snd r + 1 - fst r)).
+Definition sync_emit (rs : list (N * N)) : list N := flat_map expand rs.
+
+(** the property on what the syncer emitted: exactly b, b+1, ..., e *)
+Definition covers_once (b e : N) (emitted : list N) : Prop := emitted = nseq b (N.to_nat (e + 1 - b)).
+Definition covers_once_b (b e : N) (emitted : list N) : bool := list_eqb N.eqb emitted (nseq b (N.to_nat (e + 1 - b))).
+
+(** case: wrap flag, (fetch, begin, end), fuel, successful requests in order, emitted heights, error returned *)
+Definition sync_case := (bool * (N * N * N) * nat * list (N * N) * list N * bool)%type.
+Definition judge_sync (c : sync_case) : verdict :=
+  let '(wrap, (fetch, b, e), fuel, reqs, emitted, err) := c in
+  let p_impl := if e <? b then err && match emitted with [] => true | _ => false end
+                else negb err && chain_b b e reqs && covers_once_b b e emitted in
+  if negb p_impl then V_propfalse 0
+  else match calc_ranges_d wrap fuel fetch b e with
+       | RErr => if err then V_ok else V_mismatch 0
+       | ROk m => if err then V_mismatch 0
+                  else match first_diff rr_eqb m reqs 0 with
+                       | Some i => V_mismatch i
+                       | None => if list_eqb N.eqb (sync_emit m) emitted then V_ok else V_mismatch 1000
+                       end
+       | ROutOfFuel => V_domain 0
+       end.
